@@ -69,6 +69,9 @@ func harnessOverlay(native bool) (map[string][]byte, error) {
 	if err != nil {
 		return nil, err
 	}
+	if native {
+		ov[filepath.Join(repoDir, "internal", "vxhook", "vxhook.go")] = []byte(vxhookSrc)
+	}
 	for _, e := range ents {
 		if !e.IsDir() || strings.HasPrefix(e.Name(), "_") {
 			continue
@@ -506,3 +509,14 @@ func TestZZVxDump(t *testing.T) {
 `)
 	return b.String()
 }
+
+const vxhookSrc = `package vxhook
+
+var hooks = map[string]interface{}{}
+
+func Set(name string, f interface{}) { hooks[name] = f }
+func Get(name string) (interface{}, bool) {
+	f, ok := hooks[name]
+	return f, ok
+}
+`
